@@ -424,19 +424,21 @@ pub fn access_scenarios(seed: u64) -> u64 {
 /// offering it; writer W2 swaps (taking W1's value out and dropping it) and helps R successfully;
 /// W1 resumes, its hand-over fails and the replacement - by now the last reference - is destroyed
 /// inside W1's debt walk. With `plan`, that destructor panics.
-pub fn directed_destructor_in_debt_walk(plan: Option<(u8, u64)>, exec_no: u64) -> PanicOut {
-    directed_destructor_in_debt_walk_s::<arc_swap::strategy::test_strategies::FillFastSlots>(plan, exec_no, 0)
+pub fn directed_destructor_in_debt_walk(plan: Option<(u8, u64)>, exec_no: u64, w1op: W) -> PanicOut {
+    directed_destructor_in_debt_walk_s::<arc_swap::strategy::test_strategies::FillFastSlots>(plan, exec_no, 0, w1op)
 }
 
 /// The same scenario on the default strategy: the reader first takes `hold` = 8 guards (fast slots
 /// full, so its next load goes through the helping slot); those guards are unpaid debts on the value
 /// the first writer removes, in the very node whose help() call runs the panicking destructor
 /// (third-round seeds C18p / C18q: what the unwinding releases must not be owed to them).
-pub fn directed_destructor_in_debt_walk_default(plan: Option<(u8, u64)>, exec_no: u64) -> PanicOut {
-    directed_destructor_in_debt_walk_s::<arc_swap::DefaultStrategy>(plan, exec_no, 8)
+pub fn directed_destructor_in_debt_walk_default(plan: Option<(u8, u64)>, exec_no: u64, w1op: W) -> PanicOut {
+    directed_destructor_in_debt_walk_s::<arc_swap::DefaultStrategy>(plan, exec_no, 8, w1op)
 }
 
-fn directed_destructor_in_debt_walk_s<S: StratExt<V>>(plan: Option<(u8, u64)>, exec_no: u64, hold: usize) -> PanicOut
+/// `w1op`: the write operation of the first writer (the one whose debt walk runs the destructor):
+/// swap, compare_and_swap or rcu (third-round seed C18q: the success path of compare_and_swap).
+fn directed_destructor_in_debt_walk_s<S: StratExt<V>>(plan: Option<(u8, u64)>, exec_no: u64, hold: usize, w1op: W) -> PanicOut
 where
     arc_swap::Guard<V, S>: Send,
 {
@@ -474,7 +476,7 @@ where
         (1, hs::OP_GAP),                   // W1: hand-over fails, replacement dropped inside the walk
         (0, hs::OP_GAP),
     ]);
-    let desc = json!({"workload": "panic/directed", "scenario": "rejected replacement destroyed inside the debt walk", "strategy": <S as StratExt<V>>::NAME, "reader_holds_guards": hold, "exec_no": exec_no,
+    let desc = json!({"workload": "panic/directed", "scenario": "rejected replacement destroyed inside the debt walk", "strategy": <S as StratExt<V>>::NAME, "reader_holds_guards": hold, "first_writer": format!("{:?}", w1op), "exec_no": exec_no,
         "fault_plan": plan.map(|(k, n)| format!("{} #{}", fault::KIND_NAMES[k as usize], n)).unwrap_or_else(|| "none (counting run)".into())});
     runner::set_current(desc.clone());
     runner::HOLD_VIOLATIONS.store(plan.is_some(), SeqCst);
@@ -510,7 +512,7 @@ where
                 opv.extend(std::iter::repeat(W::Load).take(hold));
                 opv.extend([W::LoadDrop, W::LoadDrop]);
             } else {
-                opv.extend([W::Swap, W::DropOwned, W::DropOwned, W::LoadDrop]);
+                opv.extend([if t == 1 { w1op } else { W::Swap }, W::DropOwned, W::DropOwned, W::LoadDrop]);
             }
             for op in opv.iter() {
                 let r = std::panic::catch_unwind(std::panic::AssertUnwindSafe(|| w.do_op(*op)));
